@@ -19,8 +19,13 @@ def schema_table(wd):
     raise vlib.ToolError("could not obtain the schema table from TLC")
 
 
-def foreign(name, ty, table, depth=0):
-    """a well-formed element in the foreign namespace mimicking a standard element of that name"""
+def foreign(name, ty, table, depth=0, default_ns=False):
+    """a well-formed element in the foreign namespace mimicking a standard element of that name; default_ns: the
+    namespace is bound by re-declaring the default namespace on the element (its children inherit it) instead of a prefix"""
+    if default_ns:
+        inner = foreign(name, ty, table, depth).replace("<fx:", "<").replace("</fx:", "</")
+        cut = len(name) + 1
+        return inner[:cut] + f' xmlns="{EXTNS}/default"' + inner[cut:]
     q = "fx:" + name
     if ty == "String":
         return f'<{q} type="String"><![CDATA[FOREIGN-{name}]]></{q}>'
@@ -97,17 +102,37 @@ def run(tier, seed, args):
             st[-1] = {"op": "finalize", "xml_splice": [[off, foreign(nm, ty, table) + "\n"]]}
             cases.append(dict(base, name=f"ins:{path}[{i}]:{nm}:{ty}", steps=st))
             nins += 1
+            if deep or i == 0:
+                st = [dict(s) for s in base["steps"]]
+                st[-1] = {"op": "finalize", "xml_splice": [[off, foreign(nm, ty, table, default_ns=True) + "\n"]]}
+                cases.append(dict(base, name=f"insdef:{path}[{i}]:{nm}:{ty}", steps=st))
+                nins += 1
     # foreign attributes on every element (outside prototypes)
-    sp = []
-    def attrs(n):
-        if n["name"] == "prototype":
-            return
-        sp.append([n["pos"] + 1 + len(n["name"]), ' fx:note="1" fx:type="String" fx:fileOffset="4"'])
-        for k in n["kids"]:
-            attrs(k)
-    attrs(tree)
-    st = [dict(s) for s in base["steps"]]; st[-1] = {"op": "finalize", "xml_splice": sp}
-    cases.append(dict(base, name="foreign-attributes-everywhere", steps=st))
+    FATTRS = ' fx:note="1" fx:type="String" fx:fileOffset="4" fx:recordCount="3" fx:length="2" fx:allowHeterogeneousChildren="0" fx:minimum="1" fx:maximum="2"'
+    def tag_end(pos):
+        """offset of the '>' (or '/>') that ends the start tag beginning at pos"""
+        q, i = None, pos
+        while True:
+            c = xml[i:i + 1]
+            if q:
+                if c == q:
+                    q = None
+            elif c in (b'"', b"'"):
+                q = c
+            elif c == b">":
+                return i - 1 if xml[i - 1:i] == b"/" else i
+            i += 1
+    for where in ("first", "last"):
+        sp = []
+        def attrs(n):
+            if n["name"] == "prototype":
+                return
+            sp.append([n["pos"] + 1 + len(n["name"]) if where == "first" else tag_end(n["pos"]), FATTRS])
+            for k in n["kids"]:
+                attrs(k)
+        attrs(tree)
+        st = [dict(s) for s in base["steps"]]; st[-1] = {"op": "finalize", "xml_splice": sp}
+        cases.append(dict(base, name=f"foreign-attributes-everywhere-{where}", steps=st))
     # extension records inside prototypes: reported with prefix and name, values round-trip, standard records untouched
     X = progs.xyz("single")
     ext_protos = [
